@@ -145,7 +145,12 @@ def convert_sphere(val):
 
 def convert_special_quadric(val):
     '''Convert the parameters for a quadric in SQ form.'''
-    sq_params = val.compl_param
+    return T4S.QUAD, sq_to_gq(val.compl_param)
+
+
+def sq_to_gq(sq_params):
+    '''Convert the ten parameters of a quadric in SQ form (A B C D E F G x y
+    z) into the ten coefficients of the equivalent general quadric.'''
     asq = sq_params[0]
     bsq = sq_params[1]
     csq = sq_params[2]
@@ -164,7 +169,7 @@ def convert_special_quadric(val):
                  - 2.0 * (dsq * xsq + esq * ysq + fsq * zsq) + gsq]
     if eval_quadric(gq_params, (xsq, ysq, zsq)) > 0.0:
         gq_params = [-param for param in gq_params]
-    return T4S.QUAD, gq_params
+    return gq_params
 
 
 def eval_quadric(params, point):
